@@ -8,16 +8,33 @@ import json, os, sys
 sys.path.insert(0, os.path.join(os.path.dirname(os.path.abspath(__file__)), ".."))
 os.environ["VERIF_NO_INLINE"] = "1"
 from lint import facts
-fns, adts = {}, {}
+fns, adts, closures = {}, {}, {}
+
+
+def fingerprint(f):
+    """Callee paths of a closure body (tracing noise excluded): what the closure does, independent of its number."""
+    from lint.program import is_noise, callee_path
+    out = []
+    for b in range(f.body.n):
+        t = f.body.term(b)
+        if t["k"] == "call" and not is_noise(t):
+            out.append(callee_path(t))
+    return sorted(out)
+
+
 for cfg in ("all", "default", "checkpoint", "futures"):
     p = facts.load(cfg)
     for k, f in p.fns.items():
         if f.kind in ("Fn", "AssocFn"):
-            fns[k] = dict(sig=f.j.get("sig", ""))
+            b = f.body
+            fns[k] = dict(sig=f.j.get("sig", ""), params=[[b.locals[l].get("name") or "", b.locals[l]["ty"]] for l in range(1, b.arg_count + 1)])
+    for k, f in p.fns.items():
+        if f.kind == "Closure":
+            closures[k] = fingerprint(f)
     for a, d in p.adts.items():
         if d["kind"] == "struct" and len(d["variants"]) == 1:
             adts[a] = [[x["name"], x["ty"]] for x in d["variants"][0]["fields"]]
 out = os.path.join(os.path.dirname(os.path.abspath(__file__)), "..", "lint", "reference.json")
 with open(out, "w") as fh:
-    json.dump(dict(fns=fns, adts=adts), fh, indent=0, sort_keys=True)
-print(len(fns), "functions,", len(adts), "structs written")
+    json.dump(dict(fns=fns, adts=adts, closures=closures), fh, indent=0, sort_keys=True)
+print(len(fns), "functions,", len(adts), "structs,", len(closures), "closures written")
